@@ -5,7 +5,7 @@ use serde_json::{json, Value};
 
 use crate::engine::{Ctx, Fail, Local};
 use crate::oracle::int::{SplitMix, U1024};
-use crate::props::c04::{contention_cases, judge_threaded, THREAD_COUNTS};
+use crate::props::c04::{contention_cases, judge_threaded_diag as judge_threaded, THREAD_COUNTS};
 use crate::props::factoring::*;
 use crate::worker::run_jobs;
 
